@@ -26,7 +26,7 @@ ASSUMPTIONS = [
     "an unchanged %rewrite unit is absent from the diff by design: the projection law is evaluated modulo such units",
     "order is compared inside %ordered groups only (call_diff_logic concatenates groups)",
 ]
-FLOORS = {"quick": {"diffs_compared": 3000, "moved_entries": 200, "rewrite_units_changed": 50, "text_views_checked": 3000, "self_diffs": 1000, "ignore_case_rulebooks": 400, "acl_diffs_compared": 600, "removals_of_not_deletable_rows": 100, "big_blocks_compared": 120},
+FLOORS = {"quick": {"diffs_compared": 3000, "moved_entries": 200, "rewrite_units_changed": 50, "text_views_checked": 3000, "self_diffs": 1000, "ignore_case_rulebooks": 400, "acl_diffs_compared": 600, "removals_of_not_deletable_rows": 100, "big_blocks_compared": 120, "diff_worker_runs": 600},
           "thorough": {"diffs_compared": 150000, "moved_entries": 10000, "rewrite_units_changed": 2500, "text_views_checked": 150000, "self_diffs": 50000, "ignore_case_rulebooks": 15000, "acl_diffs_compared": 25000, "removals_of_not_deletable_rows": 4000, "big_blocks_compared": 5000}}
 VENDORS = ["huawei", "h3c", "optixtrans", "cisco", "nexus", "iosxr", "arista", "b4com", "pc", "juniper", "ribbon", "nokia"]
 BRACE = {"juniper", "ribbon", "nokia"}
@@ -357,6 +357,45 @@ def check_acl_case(seed, acc):
                       dict(w, expected=RD.canon(RD.strip(exp)), got=RD.canon(RD.strip(got))))
 
 
+def check_worker_case(seed, acc):
+    """the production `annet diff` worker (old_new front end, order_config on the generated side, make_diff, strip_unchanged) on a generated
+    rulebook: its diff is make_diff(old, new) with the new side in generated order (negated rows first, as order_config puts them)"""
+    import annet.rulebook as ARB
+    from annet.annlib.patching import make_diff, strip_unchanged
+    from vf import harness_gen as H
+    from collections import OrderedDict as odict
+    vname, rules, old, new = make_case(seed)
+    v, prefix, exitw, hw, fmt = c01.vendor_env(vname)
+    text = RB.render(rules)
+    po, pn = plain(old), plain(new)
+    w = {"seed": seed, "worker": True, "vendor": vname, "rulebook": text, "old": po, "new": pn}
+
+    def negfirst(tree):
+        items = [(r, negfirst(c)) for r, c in tree.items()]
+        return odict([x for x in items if x[0].startswith(prefix + " ")] + [x for x in items if not x[0].startswith(prefix + " ")])
+    orig = ARB.get_rulebook
+    try:
+        rb = c01.compile_rb(text, vname)
+        ARB.get_rulebook = lambda hw_: rb
+        dev = H.FakeDevice(hw)
+        gens = [H.make_partial("GenAll", vname, "~ %global", H.tree_runner(pn))]
+        got = H.run_diff_worker(dev, gens, fmt.join(old), no_acl_exclusive=True)
+        exp = strip_unchanged(make_diff(old, negfirst(new), rb, []))
+    except Exception as e:
+        acc.violation("C03/worker-exception/%s" % type(e).__name__, "the diff worker raised on an in-domain input", dict(w, error=repr(e)[:300]))
+        return
+    finally:
+        ARB.get_rulebook = orig
+    acc.count("diff_worker_runs")
+    g_, e_ = norm(got or []), norm(exp)
+    if any(e[0] == "MOVED" for e in RD._walk(e_)):
+        acc.count("diff_worker_runs_with_moved_rows")
+    acc.case(["worker", vname, text, po, pn], nontrivial=bool(e_))
+    if g_ != e_:
+        acc.violation("C03/diff-worker-differs-from-make_diff", "the `annet diff` worker reports other entries than make_diff gives for the device's and the generated configuration",
+                      dict(w, worker=RD.canon(g_), expected=RD.canon(e_)))
+
+
 def check_big_block(seed, acc):
     """one block holding hundreds of rows (long ACLs, prefix lists, explicit paths): the laws do not depend on the size"""
     from annet.annlib.patching import make_diff, strip_unchanged
@@ -405,6 +444,8 @@ def run_shard(spec, acc):
     if spec["mode"] == "replay" and spec["witness"].get("big"):
         return check_big_block(spec["witness"]["seed"], acc)
     if spec["mode"] == "replay":
+        if spec["witness"].get("worker"):
+            return check_worker_case(spec["witness"]["seed"], acc)
         if spec["witness"].get("acl_case"):
             check_acl_case(spec["witness"]["seed"], acc)
             return
@@ -423,3 +464,5 @@ def run_shard(spec, acc):
             check_acl_case(rng.randrange(1 << 48), acc)
         if j % 25 == 3:
             check_big_block(rng.randrange(1 << 48), acc)
+        if j % 5 == 1:
+            check_worker_case(rng.randrange(1 << 48), acc)
